@@ -356,12 +356,12 @@ def run(ctx: Ctx):
     # ---- O7 construction of the links and the steps of Algorithm X, statement group by statement group
     from .sat_common import _need
 
-    _need(ctx, "C07-O7", "R16 PAIRED-EFFECTS", build, "primary headers are chained left to right behind the root and the ring is closed; secondary headers form their own closed ring", ["if name not in secondary_set:\n            col.left = prev\n            prev.right = col\n            prev = col", "prev.right = root\n    root.left = prev", "if name in secondary_set:\n            col.left = prev_sec\n            prev_sec.right = col\n            prev_sec = col", "prev_sec.right = secondary_root\n    secondary_root.left = prev_sec", "col_headers.append(col)"])
-    _need(ctx, "C07-O7", "R16 PAIRED-EFFECTS", build, "the nodes of a row are chained in column order and closed into a ring; only cells holding a 1 get a node", ["for col_idx, val in enumerate(row):\n            if val:", "if first is None:\n                    first = node\n                    prev_node = node\n                else:\n                    node.left = prev_node\n                    prev_node.right = node\n                    prev_node = node", "if first is not None and prev_node is not None:\n            first.left = prev_node\n            prev_node.right = first"])
-    _need(ctx, "C07-O7", "R1 STATUS-GUARD", search, "a cover is complete exactly when the primary ring is empty; it is recorded as the current row stack", ["if root.right is root:\n        solutions.append(tuple(current))\n        if not find_all:\n            return True\n        if max_solutions and len(solutions) >= max_solutions:\n            return True\n        return False"])
-    _need(ctx, "C07-O7", "R21 search discipline", search, "the column with the fewest candidate rows is chosen; an uncoverable column ends the branch", ["min_col = None\n    min_size = float('inf')\n    col = root.right\n    while col is not root:\n        if col.size < min_size:\n            min_size = col.size\n            min_col = col\n            if min_size == 0:\n                break\n        col = col.right", "if min_size == 0 or min_col is None:\n        return False"])
-    _need(ctx, "C07-O7", "R15 INVERSE-PAIR", search, "trying a row: push it, cover its other columns left to right, recurse, pop it, uncover them right to left; finally uncover the chosen column", ["_cover(min_col)", "current.append(row_node.row)\n        node = row_node.right\n        while node is not row_node:\n            _cover(node.column)\n            covers += 1\n            node = node.right", "current.pop()\n        node = row_node.left\n        while node is not row_node:\n            _uncover(node.column)\n            node = node.left\n        row_node = row_node.down", "_uncover(min_col)\n    return False", "if search():\n            if not find_all:\n                return True\n            if max_solutions and len(solutions) >= max_solutions:\n                return True"])
-    _need(ctx, "C07-O7", "R1 STATUS-GUARD", search, "the iteration budget is counted per call and ends the search", ["iterations += 1\n    if iterations > max_iter:\n        return False"])
+    ctx.step(_need, "C07-O7", "R16 PAIRED-EFFECTS", build, "primary headers are chained left to right behind the root and the ring is closed; secondary headers form their own closed ring", ["if name not in secondary_set:\n            col.left = prev\n            prev.right = col\n            prev = col", "prev.right = root\n    root.left = prev", "if name in secondary_set:\n            col.left = prev_sec\n            prev_sec.right = col\n            prev_sec = col", "prev_sec.right = secondary_root\n    secondary_root.left = prev_sec", "col_headers.append(col)"])
+    ctx.step(_need, "C07-O7", "R16 PAIRED-EFFECTS", build, "the nodes of a row are chained in column order and closed into a ring; only cells holding a 1 get a node", ["for col_idx, val in enumerate(row):\n            if val:", "if first is None:\n                    first = node\n                    prev_node = node\n                else:\n                    node.left = prev_node\n                    prev_node.right = node\n                    prev_node = node", "if first is not None and prev_node is not None:\n            first.left = prev_node\n            prev_node.right = first"])
+    ctx.step(_need, "C07-O7", "R1 STATUS-GUARD", search, "a cover is complete exactly when the primary ring is empty; it is recorded as the current row stack", ["if root.right is root:\n        solutions.append(tuple(current))\n        if not find_all:\n            return True\n        if max_solutions and len(solutions) >= max_solutions:\n            return True\n        return False"])
+    ctx.step(_need, "C07-O7", "R21 search discipline", search, "the column with the fewest candidate rows is chosen; an uncoverable column ends the branch", ["min_col = None\n    min_size = float('inf')\n    col = root.right\n    while col is not root:\n        if col.size < min_size:\n            min_size = col.size\n            min_col = col\n            if min_size == 0:\n                break\n        col = col.right", "if min_size == 0 or min_col is None:\n        return False"])
+    ctx.step(_need, "C07-O7", "R15 INVERSE-PAIR", search, "trying a row: push it, cover its other columns left to right, recurse, pop it, uncover them right to left; finally uncover the chosen column", ["_cover(min_col)", "current.append(row_node.row)\n        node = row_node.right\n        while node is not row_node:\n            _cover(node.column)\n            covers += 1\n            node = node.right", "current.pop()\n        node = row_node.left\n        while node is not row_node:\n            _uncover(node.column)\n            node = node.left\n        row_node = row_node.down", "_uncover(min_col)\n    return False", "if search():\n            if not find_all:\n                return True\n            if max_solutions and len(solutions) >= max_solutions:\n                return True"])
+    ctx.step(_need, "C07-O7", "R1 STATUS-GUARD", search, "the iteration budget is counted per call and ends the search", ["iterations += 1\n    if iterations > max_iter:\n        return False"])
     generic_sweeps(ctx)
 
 
